@@ -182,7 +182,7 @@ func runStarved(p StarvedPlan) (vk.Outcome, error) {
 			if err := check(ts, "before the busy phase"); err != nil {
 				return out, err
 			}
-		case <-time.After(10 * time.Second):
+		case <-vk.After(10 * time.Second):
 			return out, vk.Violf("no-tick", "no tick within 10 s (d=%v)", d)
 		}
 		busyUntil := time.Now().Add(d * time.Duration(p.SpinX) / 2)
@@ -194,7 +194,7 @@ func runStarved(p StarvedPlan) (vk.Outcome, error) {
 				if err := check(ts, "after the busy phase"); err != nil {
 					return out, err
 				}
-			case <-time.After(10 * time.Second):
+			case <-vk.After(10 * time.Second):
 				return out, vk.Violf("no-tick", "no tick within 10 s after the busy phase (d=%v)", d)
 			}
 		}
